@@ -392,8 +392,18 @@ func genC08(r *Rng, tier string) []Case {
 		}
 		b := mkChallenge(fl, sc, res, tn, ti, ver, g0, g1, g2)
 		validChal = append(validChal, b)
-		cs = append(cs, Case{Op: "c08.chal", MArgs: []string{hx(b)}, Tag: tag,
-			SArgs: []string{hx(b), strconv.FormatUint(uint64(fl), 10), hx(sc), hx(res), hx(tn), hx(ti), hx(ver), hx(g0), hx(g1), hx(g2)}})
+		sargs := []string{hx(b), strconv.FormatUint(uint64(fl), 10), hx(sc), hx(res), hx(tn), hx(ti), hx(ver), hx(g0), hx(g1), hx(g2)}
+		if rc.Intn(3) == 0 {
+			// the two MaxLen fields "MUST be ignored on receipt" (MS-NLMP 2.2.1.2): a sender may put anything there
+			b = append([]byte{}, b...)
+			tnMax, tiMax := uint16(randIntBits(rc, 16, true)), uint16(randIntBits(rc, 16, false))
+			binary.LittleEndian.PutUint16(b[14:], tnMax)
+			binary.LittleEndian.PutUint16(b[42:], tiMax)
+			sargs[0] = hx(b)
+			sargs = append(sargs, strconv.Itoa(int(tnMax)), strconv.Itoa(int(tiMax)))
+			tag += ".maxlen"
+		}
+		cs = append(cs, Case{Op: "c08.chal", MArgs: []string{hx(b)}, Tag: tag, SArgs: sargs})
 	}
 	for i := 0; i < 400*scale; i++ {
 		fl := c08Flags(rc)
